@@ -680,6 +680,64 @@ Proof.
     apply slot_free_upd. exact SF.
 Qed.
 
+Lemma step_get img0 bl0 img fr T :
+  PFr img0 bl0 img fr T -> forall fr' w, op_get fr = (fr', w) ->
+  PFr img0 bl0 (apply_log img w) fr' T /\ f_end fr' = f_end fr /\ f_blocks fr' = f_blocks fr.
+Proof.
+  intros PR fr' w. assert (Hc : f_cache fr = true) by (destruct PR; assumption).
+  unfold op_get. rewrite Hc. simpl. destruct (f_end_dirty fr); intros H; inversion H; subst; simpl.
+  - split; [|split; reflexivity]. apply (PFr_same_blocks _ _ _ fr); simpl; auto; try lia.
+    destruct PR as [P C]. split; [|exact C]. apply L_write; [exact P|]. exact (PFr_above _ _ _ _ _ (conj P C)).
+  - split; [exact PR|split; reflexivity].
+Qed.
+
+Lemma step_copy img0 bl0 img fr T tag ref len data :
+  PFr img0 bl0 img fr T -> op_ok (OpCopy tag ref len data) = true ->
+  forall fr' w, op_copy fr tag ref len data = (fr', w) -> f_end fr' < 2147483648 ->
+  exists T', PFr img0 bl0 (apply_log img w) fr' T'.
+Proof.
+  intros PR Hok fr' w Hop Hb. unfold op_copy in Hop.
+  destruct (has_dd fr tag ref); [inversion Hop; subst; exists T; exact PR|].
+  simpl in Hok. repeat (apply andb_prop in Hok; destruct Hok as [Hok ?]).
+  repeat match goal with
+         | X : (_ <=? _) = true |- _ => apply Z.leb_le in X
+         | X : (_ <? _) = true |- _ => apply Z.ltb_lt in X
+         end.
+  assert (Hc : f_cache fr = true) by (destruct PR; assumption).
+  destruct (create_dd fr tag ref) as [[slot fr1] w1] eqn:C.
+  destruct (create_dd_mono fr tag ref (f_end fr) Hc (PFr_hd_ndds _ _ _ _ _ PR) ltac:(lia) _ _ _ C) as (C1 & C2 & _ & _).
+  assert (Hc1 : f_cache fr1 = true) by congruence.
+  destruct (getdiskblock_shape fr1 len Hc1 ltac:(lia)) as (fr2 & G & Gb & Ge & Gc). rewrite G in Hop.
+  destruct (update_dd_shape fr2 (fst slot) (snd slot) (mkdd tag ref (f_end fr1) len) Gc)
+    as (fr3 & U & Ub & Uc & Ue & Uv & Ux).
+  rewrite U in Hop.
+  destruct (op_get fr3) as [fr4 w4] eqn:Gt.
+  destruct (op_get_mono fr3 (f_end fr3) Uc ltac:(lia) _ _ Gt) as ((G1 & _) & G2 & G3).
+  assert (Hb3 : f_end fr3 <= f_end fr').
+  { destruct data; inversion Hop; subst; try lia.
+    destruct (Z.ltb_spec (f_end fr4) (f_end fr1 + zlen (z :: data))); simpl; lia. }
+  destruct (step_create _ _ _ _ _ tag ref PR ltac:(lia) ltac:(lia) _ _ _ C ltac:(lia)) as (T1 & PR1 & SF & _).
+  pose proof (PFr_above _ _ _ _ _ PR1) as Ab1.
+  assert (He1 : 0 <= f_end fr1) by (destruct Ab1 as (_ & _ & X); unfold MAGICLEN in X; lia).
+  pose proof (PFr_same_blocks _ _ _ _ fr2 _ PR1 Gb ltac:(lia) Gc) as PR2.
+  assert (Hd : dd_in_range (mkdd tag ref (f_end fr1) len)) by (unfold dd_in_range; simpl; lia).
+  destruct (step_update _ _ _ _ _ _ _ _ PR2 SF Hd) as (fr3' & U' & PR3 & _).
+  rewrite U in U'. inversion U'; subst fr3'; clear U'.
+  destruct (step_get _ _ _ _ _ PR3 _ _ Gt) as (PR4 & _ & _).
+  set (T3 := upd_tm (fst slot) (fill (snd slot) (mkdd tag ref (f_end fr1) len)) T1) in *.
+  assert (Elog : forall tl, apply_log img (w1 ++ w4 ++ tl) = apply_log (apply_log (apply_log img w1) w4) tl).
+  { intros tl. rewrite !apply_log_app. reflexivity. }
+  destruct data as [|b0 data'].
+  - inversion Hop; subst. exists T3. cbn [app]. replace (w1 ++ w4) with (w1 ++ w4 ++ []) by (rewrite app_nil_r; reflexivity).
+    rewrite Elog. exact PR4.
+  - inversion Hop; subst; clear Hop. cbn [app]. rewrite Elog. simpl.
+    exists T3. apply (PFr_same_blocks _ _ _ fr4).
+    + destruct PR4 as [P4 Hc4]. split; [|exact Hc4]. apply L_write; [exact P4|apply Above_upd; exact Ab1].
+    + destruct (f_end fr4 <? _); reflexivity.
+    + destruct (Z.ltb_spec (f_end fr4) (f_end fr1 + zlen (b0 :: data'))); simpl; lia.
+    + destruct (f_end fr4 <? _); simpl; destruct PR4; assumption.
+Qed.
+
 Lemma step_putn img0 bl0 img fr T tag len data :
   PFr img0 bl0 img fr T -> op_ok (OpPutNew tag len data) = true ->
   forall fr' w, op_putn fr tag len data = (fr', w) -> f_end fr' < 2147483648 ->
@@ -716,7 +774,9 @@ Proof.
       - eapply op_put_mono; eauto; lia.
       - eapply op_app_mono; eauto; lia.
       - eapply op_putn_mono; eauto; lia.
-      - simpl in Ho. discriminate. }
+      - simpl in Ho. discriminate.
+      - eapply op_get_mono; eauto; lia.
+      - eapply op_copy_mono; eauto; lia. }
     destruct M1 as (A1 & B1 & _ & D1).
     pose proof (run_ops_mono r fr1 (f_end fr1) ltac:(congruence) ltac:(congruence) ltac:(lia) Hr _ _ R2) as (_ & B2 & _).
     assert (PR1 : exists T1, PFr img0 bl0 (apply_log img w1) fr1 T1).
@@ -724,7 +784,9 @@ Proof.
       - eapply step_put; eauto. lia.
       - eapply step_app; eauto. lia.
       - eapply step_putn; eauto. lia.
-      - simpl in Ho. discriminate. }
+      - simpl in Ho. discriminate.
+      - destruct (step_get _ _ _ _ _ PR _ _ R1) as (X & _). eauto.
+      - eapply step_copy; eauto. lia. }
     destruct PR1 as (T1 & PR1). rewrite apply_log_app. eapply IH; eauto.
 Qed.
 
